@@ -1,4 +1,5 @@
 import abc
+import functools
 from abc import ABC
 from collections.abc import Iterable, Iterator
 from dataclasses import dataclass, field
@@ -24,6 +25,7 @@ from xsdata.utils.constants import EMPTY_MAP, XML_TRUE
 from xsdata.utils.namespaces import generate_prefix, prefix_exists, split_qname
 
 XSI_NIL = (Namespace.XSI.uri, "nil")
+is_valid_name = functools.lru_cache(maxsize=512)(namespaces.is_ncname)
 
 
 class XmlWriterEvent:
@@ -140,6 +142,7 @@ class EventHandler(abc.ABC):
         self.ns_map = self.ns_context[-1]
 
         self.pending_tag = split_qname(qname)
+        self.validate_name(self.pending_tag[1])
         self.add_namespace(self.pending_tag[0])
         # Reset early, QName attribute values are encoded before the tag is flushed
         self.reset_default_namespace()
@@ -167,6 +170,7 @@ class EventHandler(abc.ABC):
             value = QName(value)
 
         name_tuple = split_qname(qname)
+        self.validate_name(name_tuple[1])
         self.attrs[name_tuple] = self.encode_data(value)
 
     def add_namespace(self, uri: str | None, is_attribute: bool = False) -> None:
@@ -290,6 +294,18 @@ class EventHandler(abc.ABC):
                 self.validate_prefix(prefix, uri)
                 prefixes.append(prefix)
                 self.start_prefix_mapping(prefix, uri)
+
+    @classmethod
+    def validate_name(cls, name: str) -> None:
+        """Validate the local name of an element or attribute before it's written.
+
+        Names also come from instance data, generic elements and attribute maps.
+
+        Raises:
+            XmlWriterError: If the name is not a valid NCName
+        """
+        if not is_valid_name(name):
+            raise XmlWriterError(f"Invalid element or attribute name `{name}`")
 
     @classmethod
     def validate_prefix(cls, prefix: str | None, uri: str) -> None:
